@@ -185,6 +185,29 @@ class XmlSchema(InterfaceDocumentBase):
 
         elements = self.get_schema_info(pref_tns).elements
         schema_root = self.schema_dict[pref_tns]
+
+        # a class that is first met as the message of a bare method is
+        # published under the name of that message only: the header messages
+        # of the wsdl refer to the element named after the class.
+        for method in missing_methods():
+            for headers in (method.in_header, method.out_header):
+                if headers is None:
+                    continue
+                if not isinstance(headers, (list, tuple)):
+                    headers = (headers,)
+
+                for header in headers:
+                    pref = header.get_namespace_prefix(self.interface)
+                    hname = header.get_type_name()
+                    helements = self.get_schema_info(pref).elements
+                    if pref in self.schema_dict and not hname in helements:
+                        element = etree.Element(ns.XSD('element'))
+                        element.set('name', hname)
+                        element.set('type',
+                                      header.get_type_name_ns(self.interface))
+                        helements[hname] = element
+                        self.schema_dict[pref].append(element)
+
         for method in missing_methods():
             name = method.in_message.Attributes.sub_name
             if name is None:
